@@ -163,8 +163,10 @@ MigCount(u, n) == n = mg[u].ncb /\ UNCHANGED hvars
 \* ---------------------------------------------------------------- directed switches (C11)
 \* observed thread states: 0 READY, 1 RUNNING, 2 BLOCKED, 3 TERMINATED
 Ready(t) == st[t] \in {"created", "ready", "resumable"}
-Primary(u) == /\ st[u] = "none" /\ st' = [st EXCEPT ![u] = "running"]
-              /\ mg' = [mg EXCEPT ![u].pool = 0]
+\* (pool: 0 if the primary ULT lives in the observed pool, anything else if the observed pool is one
+\*  that a nested scheduler serves)
+Primary(u, pool) == /\ st[u] = "none" /\ st' = [st EXCEPT ![u] = "running"]
+              /\ mg' = [mg EXCEPT ![u].pool = pool]
               /\ UNCHANGED <<arg, tok, cst, starts, inYield, inpool, expect, rin>>
 PrimaryDone(u) == /\ st[u] = "running" /\ st' = [st EXCEPT ![u] = "freed"]
               /\ UNCHANGED <<arg, tok, cst, starts, inYield, mg, inpool, expect, rin>>
